@@ -42,6 +42,19 @@ claim("C11",
       "Lean 4 proof (frame lemma + induction over the sentence fold) + model/implementation correspondence",
       "DESIGN.md §7 C11")
 
+claim("C07",
+      "Lean theorems about an exact model of split_frontmatter and the frontmatter shell of fill_markdown (body "
+      "formatter as a parameter): FM_NONE, FM_PARTITION (the document's lines are blank ++ frontmatter ++ body, "
+      "nothing altered), LINES_FAITHFUL (only LF/CRLF are line ends), FM_UNCLOSED / UNCLOSED_COUNT / FM_UNCLOSED_FIX "
+      "(unclosed block returned unchanged, idempotent for every formatter F). Model tied by equality on all short "
+      "line sequences over a vocabulary × LF/CRLF plus random Unicode-separator texts, and on the shell with a stub "
+      "formatter; FM_EXACT / FM_INDEP / FM_UNCLOSED also checked end-to-end on reformat_text.",
+      COMMON_NOTE + "FM_INDEP at string level (format(fm+body) = fm+format(body)) is checked end-to-end, not yet a "
+      "theorem; it needs 'the body's first non-blank line is not ---' (known finding C07-body-starts-with-dashes). "
+      "FM_UNCLOSED_FIX is proved for CR-free text.",
+      "Lean 4 proof (line-partition and fixed-point theorems) + model/implementation correspondence",
+      "DESIGN.md §7 C07")
+
 NOT_YET = {
 }
 
